@@ -7,6 +7,7 @@ import (
 	"fmt"
 	"os"
 	"runtime"
+	"strings"
 	"sync"
 	"testing"
 	"time"
@@ -110,6 +111,7 @@ func (r *qRun) actorMain(a *qActor) {
 // settle waits until actor a is parked, finished or observed blocked inside the library.
 func (r *qRun) settle(a *qActor) string {
 	deadline := time.Now().Add(20 * time.Second)
+	var lockSince time.Time
 	for spin := 0; ; spin++ {
 		select {
 		case p := <-a.parked:
@@ -142,6 +144,19 @@ func (r *qRun) settle(a *qActor) string {
 					a.blocked, a.at = true, ""
 					return ""
 				}
+			}
+		}
+		if a.gid != 0 && spin > 8 {
+			if st, _ := mux.StateOf(a.gid); strings.Contains(st, "Mutex") || strings.Contains(st, "semacquire") {
+				// waiting for the queue's mutex: momentary unless an earlier operation returned with
+				// the lock held
+				if lockSince.IsZero() {
+					lockSince = time.Now()
+				} else if time.Since(lockSince) > 3*time.Second {
+					return "LOCK: " + a.name + " has been waiting for the queue's mutex for 3 s (state " + st + "): an earlier operation returned with the lock held"
+				}
+			} else {
+				lockSince = time.Time{}
 			}
 		}
 		if time.Now().After(deadline) {
@@ -195,6 +210,9 @@ func runQueueSchedule(sc c20Scenario) (string, []int, int, string) {
 	}
 	for _, a := range r.actors {
 		if e := r.settle(a); e != "" {
+			if strings.HasPrefix(e, "LOCK: ") {
+				return e[6:], nil, 0, ""
+			}
 			return "", nil, 0, e
 		}
 	}
@@ -243,6 +261,9 @@ func runQueueSchedule(sc c20Scenario) (string, []int, int, string) {
 		wasAt := a.at
 		a.release <- struct{}{}
 		if e := r.settle(a); e != "" {
+			if strings.HasPrefix(e, "LOCK: ") {
+				return e[6:], r.branching, r.preempt, ""
+			}
 			return "", nil, 0, e
 		}
 		_ = wasAt
